@@ -20,6 +20,15 @@ class BuildError(Exception):
     pass
 
 
+def write_if_changed(path, content):
+    if os.path.exists(path) and open(path).read() == content:
+        return False
+    os.makedirs(os.path.dirname(path), exist_ok=True)
+    with open(path, "w") as f:
+        f.write(content)
+    return True
+
+
 def log(*a):
     print(*a, file=sys.stderr, flush=True)
 
@@ -52,6 +61,8 @@ class Lock:
 def build_harness(profile="debug"):
     """cargo build of the harness against /repo's working tree, hooks on"""
     with Lock("cargo"):
+        tmpl = open(os.path.join(HARNESS, "Cargo.toml.in")).read().replace("@REPO@", REPO)
+        write_if_changed(os.path.join(HARNESS, "Cargo.toml"), tmpl)
         lock_src = os.path.join(REPO, "Cargo.lock")
         lock_dst = os.path.join(HARNESS, "Cargo.lock")
         if not os.path.exists(lock_dst):
@@ -65,22 +76,29 @@ def build_harness(profile="debug"):
     return os.path.join(HARNESS, "target", profile, "mwh")
 
 
-def write_if_changed(path, content):
-    if os.path.exists(path) and open(path).read() == content:
-        return False
-    os.makedirs(os.path.dirname(path), exist_ok=True)
-    with open(path, "w") as f:
-        f.write(content)
-    return True
-
-
 def regen():
     """regenerate coq/Gen/*.v from /repo's working tree (translator, lib/gen_coq.py)"""
     import gen_coq
     return gen_coq.regenerate(REPO, os.path.join(COQ, "Gen"))
 
 
+COQPROJECT_HEAD = """-Q . MW
+-arg -w -arg -notation-overridden,-deprecated-hint-without-locality,-extraction-reserved-identifier,-extraction-opaque-accessed,-deprecated-instance-without-locality,-ambiguous-paths
+"""
+
+
+def write_coqproject():
+    """_CoqProject lists every .v under coq/{Gen,Model,Proofs,Props,Extract}"""
+    files = []
+    for d in ("Gen", "Model", "Proofs", "Props", "Extract"):
+        dd = os.path.join(COQ, d)
+        if os.path.isdir(dd):
+            files += sorted(os.path.join(d, f) for f in os.listdir(dd) if f.endswith(".v") and not f.startswith("."))
+    write_if_changed(os.path.join(COQ, "_CoqProject"), COQPROJECT_HEAD + "\n".join(files) + "\n")
+
+
 def coq_makefile():
+    write_coqproject()
     mk = os.path.join(COQ, "Makefile")
     cp = os.path.join(COQ, "_CoqProject")
     if not os.path.exists(mk) or os.path.getmtime(mk) < os.path.getmtime(cp):
